@@ -27,9 +27,9 @@ func checkC10(tier, replay string) int {
 	defer env.Cleanup()
 	env.BuildRepo(false)
 	rep := ev.New(env, "fault_enumeration")
-	n := 120
+	n := 400
 	if tier == "thorough" {
-		n = 1500
+		n = 3000
 	}
 	types := []string{"asa", "ios", "panos", "nsx", "linux"}
 	rep.Rule = fmt.Sprintf("%d seeded pairs per device type %v from the convergence generators (only pairs whose script has 3..60 commands). For every prefix length k of the command sequence "+
